@@ -360,6 +360,8 @@ func runLimitCase(c *lCase) (bad []string, got string) {
 		return runTopQ(c)
 	case "shards":
 		return runShards(c)
+	case "mtagorder":
+		return runMTagOrder(c)
 	}
 	return []string{"harness:bad-kind"}, ""
 }
@@ -398,7 +400,7 @@ func limitEval(c *lCase, size int, res *wres) {
 	for _, ch := range c.Children {
 		total += len(ch)
 	}
-	if total >= 2 && (c.Offset > 0 || c.Limit < total) {
+	if total >= 2 && (c.Offset > 0 || c.Limit < total || c.Kind == "mtagorder") {
 		res.Nontrivial++
 	}
 	res.outcome("limit:" + c.Kind + ":" + got)
@@ -414,12 +416,15 @@ func limitEval(c *lCase, size int, res *wres) {
 	for _, b := range bad {
 		cc := *c
 		cc.Got = got
-		if c.Kind == "mlimit" || c.Kind == "slimit" {
+		if c.Kind == "mlimit" || c.Kind == "slimit" || c.Kind == "mtagorder" {
 			cc.Want = intsStr(refWindow(all, c.Desc, c.Offset, c.Limit))
 		}
 		mode := c.Mode
 		if strings.HasPrefix(mode, "single-chunk") {
 			mode = "single-chunked"
+		}
+		if c.Kind == "mtagorder" {
+			mode = tagOrderKeyMode(c.Mode)
 		}
 		key := "limit/" + c.Kind + "/" + mode + "/" + b
 		if strings.HasPrefix(b, "harness:") {
@@ -470,6 +475,7 @@ func limitWorker(wi, wn int, thorough bool, res *wres) {
 			}
 		})
 	}
+	tagOrderWorker(wi, wn, res, &idx)
 	// TopQueue: every insertion sequence of length 0..6 over values 1..4, n in 1..7, top and bottom
 	seq := make([]int, 0, 6)
 	var rec func()
